@@ -25,6 +25,7 @@ witness history is kept below (`stale_timer_no_longer_doubles`) and in corpus/hs
 -/
 import Nebula.Lemmas.HsManagerStep
 import Nebula.Lemmas.HsPendingHist
+import Nebula.Lemmas.HsRouted
 import Nebula.Spec.HsRetry
 
 namespace Nebula.Props.C32
@@ -218,6 +219,43 @@ theorem flush_log_entry (n : Node) (via : UNode) (idx : Nat) (c : Completed)
   rw [hl]
   simp [hr, hs, hw]
 
+/-- Multi-gateway unsafe routes (getOrHandshakeConsiderRouting, ECMP branch), every history: a tun packet into the
+routed network is transmitted AT MOST ONCE, and if it is transmitted — through the flow-hash-chosen gateway or,
+when that one has no tunnel, through the first other gateway that has one — NO pending handshake's queue changes:
+a packet that left through a fallback gateway is not also waiting on the chosen gateway's handshake (so it cannot
+be released a second time, `flush_in_order_if_allowed` only ever releases what the queue holds). -/
+theorem routed_packet_sent_or_queued_not_both (cfg : Cfg) (hs : Cfg.sane cfg) (evs : List Ev) (q : Cached) :
+    let n := (Node.init cfg).run evs
+    (n.sendRouted q).2.tx.length ≤ 1 ∧
+    ((n.sendRouted q).2.tx ≠ [] → ∀ b, queueOf (n.sendRouted q).1.p b = queueOf n.p b) :=
+  sendRouted_sent_not_queued _ q (run_pinv (Node.init cfg) evs (init_pinv cfg hs))
+
+/-- … and the same for a packet to an overlay address (no routing): transmitted at most once. -/
+theorem inside_packet_sent_at_most_once (n : Node) (h : PInv n.p) (a : Addr) (q : Cached) :
+    (n.sendInside a q).2.tx.length ≤ 1 := by
+  unfold Node.sendInside
+  split
+  · simp
+  · split
+    · exact (sendRouted_sent_not_queued n q h).1
+    · split
+      · simp
+      · cases hp : n.main.primary a with
+        | some hi => simp only [Node.getOrHandshake, hp]; exact sendVia_le_one ..
+        | none => simp [Node.getOrHandshake, hp]
+
+-- ECMP: gateways 2, 3, 4 (weights 1, 1, 2); only gateway 3 has a tunnel. Six packets whose flow hashes pick different
+-- gateways all leave through gateway 3 at once, handshakes to 2 and 4 are started, and their queues stay empty.
+def cfgE : Cfg := { cfgW with routes := [(2, 1), (3, 1), (4, 2)] }
+def histE : List Ev :=
+  [.lh 2 1, .lh 3 2, .lh 4 3, .hs 3, .tick 0, .tick 100000000, .tick 200000000,
+   .stage2 2 1001 (.completed { certAddrs := [3], certVer := 2, remoteIndex := 3001, time := 5 })]
+
+example : ((List.range 6).map (fun i => (((Node.init cfgE).run histE).sendInside 201 { len := 30 + i, port := 1000 + i }).2.tx)) =
+    (List.range 6).map (fun i => [Tx.msg (30 + i) 2]) := by decide
+def histE6 : List Ev := histE ++ (List.range 6).map (fun i => Ev.send 201 { len := 30 + i, port := 1000 + i })
+example : (((Node.init cfgE).run histE6).p.vpnIps.map (fun x => x.2.store.length)) = [0, 0] := by decide
+
 -- non-vacuity: the sane configurations include the defaults and the small retry counts
 example : Cfg.sane cfgW := by unfold Cfg.sane; decide
 example : Cfg.sane { cfgW with retries := 1 } ∧ Cfg.sane { cfgW with retries := 0 } := by unfold Cfg.sane; decide
@@ -228,13 +266,13 @@ example : ∃ hh, alookup 2 ((Node.init cfgW).run (histW.take 5)).p.vpnIps = som
 example : (alookup 2 ((Node.init { cfgW with retries := 1 }).run
     [.lh 2 1, .hs 2, .tick 0, .tick 100000000, .tick 200000000, .tick 400000000]).p.vpnIps).isNone = true := by decide
 -- flush: three queued packets, the second one refused by the outbound firewall (port 2500); released once
-example : ((Node.init cfgW).run [.lh 2 1, .send 2 ⟨40, 1500⟩, .send 2 ⟨41, 2500⟩, .send 2 ⟨42, 1501⟩, .tick 0,
+example : ((Node.init cfgW).run [.lh 2 1, .send 2 { len := 40, port := 1500 }, .send 2 { len := 41, port := 2500 }, .send 2 { len := 42, port := 1501 }, .tick 0,
       .tick 100000000, .tick 200000000]).step
       (.stage2 1 1001 (.completed { certAddrs := [2], certVer := 2, remoteIndex := 2001, time := 5 })) |>.2.tx
     = [.msg 40 1, .msg 42 1] := by decide
-example : flushLog (Node.init cfgW) [.lh 2 1, .send 2 ⟨40, 1500⟩, .send 2 ⟨41, 2500⟩, .tick 0, .tick 100000000, .tick 200000000,
+example : flushLog (Node.init cfgW) [.lh 2 1, .send 2 { len := 40, port := 1500 }, .send 2 { len := 41, port := 2500 }, .tick 0, .tick 100000000, .tick 200000000,
       .stage2 1 1001 (.completed { certAddrs := [2], certVer := 2, remoteIndex := 2001, time := 5 }),
       .stage2 1 1001 (.completed { certAddrs := [2], certVer := 2, remoteIndex := 2001, time := 5 })]
-    = [(0, [⟨40, 1500⟩])] := by decide
+    = [(0, [{ len := 40, port := 1500 }])] := by decide
 
 end Nebula.Props.C32
